@@ -9,18 +9,26 @@
                     wire[p]- replies peer p has written and REQ has not read
                     rr     - round-robin queue of peers
    Calls are multi-step where the code is: RecvStart (marker handling before the first await),
-   RecvDone (a reply is there), RecvDropped (the future is abandoned at its suspension point).
+   RecvDone (a reply is there), RecvDropped (the future is abandoned at its suspension point);
+   SendStart (refusal, choice of the peer, the request starts to be written), SendDone (the
+   transport has taken it), SendDropped (the future is abandoned while the transport takes it: the
+   request is partly written and the rest of it goes out with the next recv).
    Dev: "recv_takes_marker_early" = the marker is cleared in RecvStart (what the code did before the
-   fix recorded in known_findings.json); "send_ignores_marker"; "recv_any_peer" (spec mutants).   *)
+   fix recorded in known_findings.json); "marker_after_write" = the marker is set when the write
+   has completed, not when it starts (the code before fix F34: an abandoned send leaves a request
+   on the wire and the socket ready for another); "send_ignores_marker"; "recv_any_peer" (spec
+   mutants).                                                                                      *)
 EXTENDS Naturals, Sequences, FiniteSets, TLC
 CONSTANTS Peers, MaxCalls, Dev
-VARIABLES owed, apeer, marker, fut, wire, rr, ncalls, nreq, last, bad
-vars == <<owed, apeer, marker, fut, wire, rr, ncalls, nreq, last, bad>>
+VARIABLES owed, apeer, marker, fut, wire, rr, ncalls, nreq, last, bad,
+          sfut,      \* a send future exists and is suspended in the write ("pending") or not ("none")
+          written    \* the outstanding request is completely on the wire
+vars == <<owed, apeer, marker, fut, wire, rr, ncalls, nreq, last, bad, sfut, written>>
 
 NoPeer == 0
 Init == /\ owed = FALSE /\ apeer = NoPeer /\ marker = NoPeer /\ fut = "none"
         /\ wire = [p \in Peers |-> <<>>] /\ rr \in {s \in [1..Cardinality(Peers) -> Peers] : \A i, j \in DOMAIN s : i # j => s[i] # s[j]}
-        /\ ncalls = 0 /\ nreq = 0 /\ last = "init" /\ bad = {}
+        /\ ncalls = 0 /\ nreq = 0 /\ last = "init" /\ bad = {} /\ sfut = "none" /\ written = FALSE
 
 Budget == ncalls < MaxCalls
 \* what layer A demands of the observable result r of a call, given the A state before it
@@ -31,27 +39,35 @@ Judge(call, ok, peer, reply) ==
     [] call = "recv" /\ owed /\ ok /\ peer # apeer -> {"C08/foreign-reply"}     \* (an early message of the right peer is indistinguishable from its reply)
     [] OTHER -> {}
 
-\* ---- application calls send(m) (one step: no suspension point before the write completes here) ----
-Send ==
-  /\ Budget /\ fut = "none"
+\* ---- application calls send(m): the synchronous part up to the write ----
+SendStart ==
+  /\ Budget /\ fut = "none" /\ sfut = "none"
   /\ LET refused == marker # NoPeer /\ "send_ignores_marker" \notin Dev
          p == rr[1] IN
      IF refused
        THEN /\ bad' = bad \cup Judge("send", FALSE, NoPeer, 0)
-            /\ UNCHANGED <<owed, apeer, marker, rr, nreq, wire>>
+            /\ UNCHANGED <<owed, apeer, marker, rr, nreq, wire, sfut, written>>
        ELSE /\ bad' = bad \cup Judge("send", TRUE, p, 0)
-            /\ marker' = p /\ rr' = Tail(rr) \o <<p>> /\ nreq' = nreq + 1
-            /\ owed' = TRUE /\ apeer' = p /\ UNCHANGED wire
+            /\ marker' = (IF "marker_after_write" \in Dev THEN marker ELSE p) /\ nreq' = nreq + 1
+            /\ owed' = TRUE /\ apeer' = p /\ sfut' = "pending" /\ written' = FALSE      \* layer A: the request is outstanding once any of it is on the wire
+            /\ UNCHANGED <<wire, rr>>
   /\ ncalls' = ncalls + 1 /\ last' = "send" /\ UNCHANGED fut
+SendDone ==
+  /\ sfut = "pending" /\ sfut' = "none" /\ written' = TRUE
+  /\ marker' = apeer /\ rr' = Tail(rr) \o <<rr[1]>> /\ last' = "send_done"
+  /\ UNCHANGED <<owed, apeer, fut, wire, ncalls, nreq, bad>>
+SendDropped ==
+  /\ sfut = "pending" /\ sfut' = "none" /\ last' = "send_dropped"
+  /\ UNCHANGED <<owed, apeer, marker, fut, wire, rr, ncalls, nreq, bad, written>>
 
 \* ---- recv(): first synchronous part ----
 RecvStart ==
-  /\ Budget /\ fut = "none"
-  /\ ncalls' = ncalls + 1 /\ last' = "recv_start"
+  /\ Budget /\ fut = "none" /\ sfut = "none"
+  /\ ncalls' = ncalls + 1 /\ last' = "recv_start" /\ UNCHANGED sfut
   /\ IF marker = NoPeer
        THEN /\ bad' = bad \cup Judge("recv", FALSE, NoPeer, 0)       \* refused at once
-            /\ UNCHANGED <<owed, apeer, marker, fut, wire, rr, nreq>>
-       ELSE /\ fut' = "pending"
+            /\ UNCHANGED <<owed, apeer, marker, fut, wire, rr, nreq, written>>
+       ELSE /\ fut' = "pending" /\ written' = TRUE                   \* (what an abandoned send left behind is written out first)
             /\ marker' = IF "recv_takes_marker_early" \in Dev THEN NoPeer ELSE marker
             /\ UNCHANGED <<owed, apeer, wire, rr, nreq, bad>>
 \* the peer the suspended future reads from: the marker's peer (or, for the deviation, the A peer it had taken)
@@ -62,27 +78,28 @@ RecvDone ==
         /\ bad' = bad \cup Judge("recv", TRUE, p, Head(wire[p]))
         /\ wire' = [wire EXCEPT ![p] = Tail(@)]
   /\ fut' = "none" /\ marker' = NoPeer /\ owed' = FALSE /\ apeer' = NoPeer
-  /\ last' = "recv_done" /\ UNCHANGED <<rr, ncalls, nreq>>
+  /\ last' = "recv_done" /\ UNCHANGED <<rr, ncalls, nreq, sfut, written>>
 RecvDropped ==
   /\ fut = "pending" /\ fut' = "none" /\ last' = "recv_dropped"
-  /\ UNCHANGED <<owed, apeer, marker, wire, rr, ncalls, nreq, bad>>       \* layer A: as if the call had not been made
+  /\ UNCHANGED <<owed, apeer, marker, wire, rr, ncalls, nreq, bad, sfut, written>>       \* layer A: as if the call had not been made
 \* ---- the peer that holds request number n answers it ----
 Reply(p) ==
-  /\ owed /\ p = apeer /\ Len(wire[p]) = 0 /\ (\A q \in Peers : \A i \in 1..Len(wire[q]) : wire[q][i] # nreq)
+  /\ owed /\ written /\ p = apeer /\ Len(wire[p]) = 0 /\ (\A q \in Peers : \A i \in 1..Len(wire[q]) : wire[q][i] # nreq)
   /\ wire' = [wire EXCEPT ![p] = Append(@, nreq)] /\ last' = "reply"
-  /\ UNCHANGED <<owed, apeer, marker, fut, rr, ncalls, nreq, bad>>
+  /\ UNCHANGED <<owed, apeer, marker, fut, rr, ncalls, nreq, bad, sfut, written>>
 
 \* a peer that does not hold the outstanding request writes something anyway (late or unsolicited reply)
 Unsolicited(p) ==
   /\ p # apeer /\ Len(wire[p]) = 0 /\ wire' = [wire EXCEPT ![p] = Append(@, 0)] /\ last' = "unsolicited"
-  /\ UNCHANGED <<owed, apeer, marker, fut, rr, ncalls, nreq, bad>>
+  /\ UNCHANGED <<owed, apeer, marker, fut, rr, ncalls, nreq, bad, sfut, written>>
 
-Next == Send \/ RecvStart \/ RecvDone \/ RecvDropped \/ \E p \in Peers : Reply(p) \/ Unsolicited(p)
+Next == SendStart \/ SendDone \/ SendDropped \/ RecvStart \/ RecvDone \/ RecvDropped \/ \E p \in Peers : Reply(p) \/ Unsolicited(p)
 Spec == Init /\ [][Next]_vars
 
 \* B => A: no call sequence produces a result layer A forbids
 Refines == bad = {}
 \* marker mirrors the A state whenever no call is in flight
-MarkerMirrorsOwed == fut = "none" => ((marker # NoPeer) <=> owed)
+MarkerMirrorsOwed == (fut = "none" /\ sfut = "none") => ((marker # NoPeer) <=> owed)
+Reach_SendDroppedThenRecv == ~(last = "recv_done" /\ ncalls >= 2 /\ nreq = 1 /\ rr[1] = CHOOSE p \in Peers : \A q \in Peers : p <= q)
 Reach_DroppedThenSend == ~(last = "send" /\ owed /\ ncalls >= 3)
 =============================================================================
